@@ -122,6 +122,8 @@ type Program struct {
 	Files map[string][]Line `json:"files,omitempty"` // "include/x.ra" | "exclude/y.ra" -> lines
 	// toolchain.yaml: nil = absent
 	Config *string `json:"config,omitempty"`
+	// ConfigIsDir: regex-assembly/toolchain.yaml is a directory (unreadable as a file)
+	ConfigIsDir bool `json:"config_is_dir,omitempty"`
 }
 
 // Tree returns the files below the CRS root needed to run the program from stdin.
@@ -130,7 +132,9 @@ func (p *Program) Tree() map[string]string {
 	for name, lines := range p.Files {
 		t["regex-assembly/"+name] = Print(lines, "\n", true)
 	}
-	if p.Config != nil {
+	if p.ConfigIsDir {
+		t["regex-assembly/toolchain.yaml/"] = ""
+	} else if p.Config != nil {
 		t["regex-assembly/toolchain.yaml"] = *p.Config
 	}
 	return t
@@ -354,6 +358,10 @@ func rewriteSuffixes(lines []Line, pairs []string, mode string) []Line {
 				}
 			}
 		}
+		if out[i].T == "" {
+			// an entry whose whole text was deleted is still an entry: the empty expression
+			out[i].T = "(?:)"
+		}
 	}
 	return out
 }
@@ -401,4 +409,28 @@ func PairsInteract(lines []Line, pairs []string) bool {
 	}
 	rec(0)
 	return differs
+}
+
+// Inlined returns the program with every include typed in place and every definition expanded
+// by hand: a single file without include, include-except or define lines.
+func (p *Program) Inlined(opt ResolveOpt) (*Program, error) {
+	r, err := p.Resolve(p.Main, opt, nil, 0)
+	if err != nil {
+		return nil, err
+	}
+	var main []Line
+	for _, l := range p.Main {
+		if l.K == KFlags {
+			l.Ind, l.Trail = "", ""
+			main = append(main, l)
+		}
+	}
+	for _, px := range r.Prefixes {
+		main = append(main, Line{K: KPrefix, T: px})
+	}
+	for _, sx := range r.Suffixes {
+		main = append(main, Line{K: KSuffix, T: sx})
+	}
+	main = append(main, r.Body...)
+	return &Program{Main: main, Files: map[string][]Line{}, Config: p.Config, ConfigIsDir: p.ConfigIsDir}, nil
 }
